@@ -295,18 +295,39 @@ class Fn:
         return self._idom
 
     def dominates(self, a, b):
-        """block a dominates block b (b reachable)"""
-        d = self.dominators()
-        return b in d and a in d[b]
+        """block a dominates block b (b reachable): b is unreachable from entry once a is removed"""
+        if a == b:
+            return b in self._reach0()
+        key = ('d', a)
+        c = self._cache().get(key)
+        if c is None:
+            c = self.reachable_from(0, avoid=[a])
+            self._cache()[key] = c
+        return b in self._reach0() and b not in c
+
+    def _cache(self):
+        if self._idom is None:
+            self._idom = {}
+        return self._idom
+
+    def _reach0(self):
+        c = self._cache().get('r0')
+        if c is None:
+            c = self.reachable_from(0)
+            self._cache()['r0'] = c
+        return c
 
     def edge_dominates(self, edge, b):
-        """every path from entry to block b uses CFG edge (p, q)"""
+        """every path from entry to block b uses CFG edge (p, q): b is unreachable once the edge is removed"""
         p, q = edge
         if q not in self.succ(p):
             return False
-        # multi-edges p->q (switch with several values to same target) are one edge here
-        d = self._dominators(extra=(p, q))
-        return b in d and 'E' in d[b]
+        key = ('e', p, q)
+        c = self._cache().get(key)
+        if c is None:
+            c = self.reachable_from(0, avoid_edges=[(p, q)])
+            self._cache()[key] = c
+        return b in self._reach0() and b not in c
 
     def must_pass_through(self, frm, to, through):
         """`to` is unreachable from `frm` once blocks in `through` are removed"""
@@ -518,9 +539,20 @@ def resolve_place(fn, pl, depth=12):
         if sd is None:
             return pl
         _, idx, rv = sd
-        if idx == 'term':
-            return pl
         proj = list(pl['p'])
+        if idx == 'term':
+            # `Deref::deref(&X)` / `DerefMut::deref_mut(&mut X)` of std containers (Vec -> slice, String -> str): alias of X's contents
+            if rv['k'] == 'call' and rv['callee']['name'] in ('deref', 'deref_mut') and not rv['callee'].get('local') \
+               and path_endswith(rv['callee'].get('trait') or '', ('ops::DerefMut' if rv['callee']['name'] == 'deref_mut' else 'ops::Deref')) \
+               and (rv['callee'].get('self_ty') or '').startswith(('std::vec::Vec<', 'std::string::String', 'std::boxed::Box<')):
+                a = op_place(rv['args'][0])
+                if a is not None and proj and proj[0] == 'deref':
+                    pl = {'l': a['l'], 'p': list(a['p']) + proj}
+                    continue
+                if a is not None and not proj:
+                    pl = {'l': a['l'], 'p': list(a['p']), 'ref': True}
+                    continue
+            return pl
         if rv['k'] == 'ref':
             if proj and proj[0] == 'deref':
                 pl = {'l': rv['pl']['l'], 'p': list(rv['pl']['p']) + proj[1:]}
@@ -531,7 +563,8 @@ def resolve_place(fn, pl, depth=12):
                 # keep flag but continue resolving
                 continue
             return pl
-        if rv['k'] == 'use' and op_place(rv['op']) is not None:
+        if rv['k'] == 'use' and op_place(rv['op']) is not None and fn.locals[l]['ty'].startswith(('&', '*')):
+            # copies/moves of *references* keep the identity of the referent; moved values do not
             src = op_place(rv['op'])
             pl = {'l': src['l'], 'p': list(src['p']) + proj}
             continue
@@ -757,3 +790,123 @@ def cfg_isomorphic(f1, f2, norm=lambda s: s, ignore_stmt=False):
             m[x] = y
             work.append((x, y))
     return True, len(m)
+
+
+def reaching_defs(fn, l):
+    """forward dataflow: for whole-local `l`, map block -> set of definition ids (block, idx) reaching block ENTRY.
+    ('entry', 0) stands for the value on function entry (argument / uninitialised)."""
+    defs_in = {b: [] for b in fn.live_blocks()}
+    for (b, idx, _rv) in fn.defs().get(l, []):
+        defs_in[b].append(idx)
+    out = {}
+    entry = {0: frozenset([('entry', 0)])}
+    work = deque([0])
+    while work:
+        b = work.popleft()
+        cur = entry[b]
+        if defs_in.get(b):
+            last = defs_in[b][-1]
+            cur_out = frozenset([(b, last)])
+        else:
+            cur_out = cur
+        out[b] = cur_out
+        for s in fn.succ(b):
+            old = entry.get(s)
+            new = cur_out if old is None else (old | cur_out)
+            if new != old:
+                entry[s] = new
+                work.append(s)
+    return entry
+
+
+def defs_reaching_use(fn, l, block, stmt_idx=None):
+    """definitions of local l reaching a use in `block` at statement index stmt_idx (None = terminator)"""
+    entry = reaching_defs(fn, l).get(block, frozenset())
+    last = None
+    for (b, idx, _rv) in fn.defs().get(l, []):
+        if b == block and idx != 'term' and (stmt_idx is None or idx < stmt_idx):
+            last = (b, idx)
+    return frozenset([last]) if last is not None else entry
+
+
+def def_rv(fn, d):
+    """rvalue / terminator of a definition id (block, idx)"""
+    b, idx = d
+    if b == 'entry':
+        return None
+    if idx == 'term':
+        return fn.term(b)
+    return fn.stmts(b)[idx]['rv']
+
+
+def question_mark(fn, call_block):
+    """`expr?` shape: call in call_block returns a Result into r; the next block calls Try::branch(r) -> d; the block
+    after switches on discriminant(d). returns dict(switch=, cont=, brk=, d=) or None"""
+    t = fn.term(call_block)
+    if t['k'] != 'call' or t.get('target') is None or not is_local(t['dest']):
+        return None
+    r = t['dest']['l']
+    b1 = t['target']
+    t1 = fn.term(b1)
+    if t1['k'] != 'call' or not callee_matches(t1, ['ops::Try::branch']) or t1.get('target') is None:
+        return None
+    a = op_place(t1['args'][0])
+    if a is None or not is_local(a, r):
+        return None
+    d = t1['dest']
+    b2 = t1['target']
+    sw = switch_on_discriminant(fn, b2)
+    if sw is None or not same_place(sw[0], d):
+        return None
+    cont = brk = None
+    for v, tg in sw[1]:
+        if v == 0:
+            cont = tg
+        elif v == 1:
+            brk = tg
+    if cont is None:
+        return None
+    return dict(switch=b2, cont=cont, brk=brk, d=d)
+
+
+def continue_payload_local(fn, qm):
+    """the user local that receives `(d as Continue).0` (followed through one move)"""
+    out = []
+    for st in fn.stmts(qm['cont']):
+        if st['k'] == 'assign' and st['rv']['k'] == 'use':
+            src = op_place(st['rv']['op'])
+            if src is not None and src['l'] == qm['d']['l'] and any(isinstance(p, dict) and p.get('dc') == 0 for p in src['p']):
+                out.append(st['pl']['l'])
+            elif src is not None and is_local(src) and src['l'] in out and is_local(st['pl']):
+                out.append(st['pl']['l'])
+    return out
+
+
+def mut_borrow_blocks(fn, place):
+    """blocks containing `&mut place` (exact place or a prefix-compatible borrow of the whole local)"""
+    out = []
+    for blk in fn.blocks:
+        if blk['cleanup']:
+            continue
+        for i, st in enumerate(blk['stmts']):
+            if st['k'] == 'assign' and st['rv']['k'] == 'ref' and st['rv']['mut']:
+                r = resolve_place(fn, st['rv']['pl'])
+                if same_place(r, place) or (r['l'] == place['l'] and len(r['p']) < len(place['p']) and [_proj_key(x) for x in r['p']] == [_proj_key(x) for x in place['p'][:len(r['p'])]]):
+                    out.append((blk['id'], i))
+    return out
+
+
+def between(fn, start_block, end_block, barrier=()):
+    """blocks on some path start_block ->* end_block (inclusive), not passing through barrier blocks"""
+    fwd = fn.reachable_from(start_block, avoid=barrier)
+    # backward reachability
+    back = {end_block}
+    q = deque([end_block])
+    while q:
+        b = q.popleft()
+        for p in fn.pred(b):
+            if p in back or p in barrier:
+                continue
+            back.add(p)
+            q.append(p)
+    return fwd & back
